@@ -9,7 +9,7 @@
 From Coq Require Import Permutation.
 From ChiaV.Base Require Import Bytes Sha256.
 From ChiaV.Gen Require Import Dl.
-From ChiaV.Dl Require Import Format Map Tree Blob Abs Inv History Spec PreFix FormatProofs Refuted TreeProofs BlobLemmas BlobOps BlobOps6 BlobOps7.
+From ChiaV.Dl Require Import Format Map Tree Blob Abs Inv History Spec PreFix FormatProofs Refuted TreeProofs BlobLemmas BlobOps BlobOps6 BlobOps7 BlobHash BlobProof BlobReload BlobIntegrity BlobOps8.
 Open Scope N_scope.
 
 (* ================= L1 -> L0, all histories ================= *)
@@ -109,28 +109,62 @@ Proof. exact batch_rejected_step. Qed.
 Theorem C18_blob_content_is_map : forall H s ot m, Abs H s ot -> tree_refines H ot m -> content_is s m.
 Proof. exact content_is_map. Qed.
 
-(* FULL STATEMENT (not proved in full; see notes/dl.md):
+(* calculate_lazy_hashes: the iterator with the dirty predicate yields exactly the dirty internal nodes in
+   post-order (dirty is upward closed, so a clean node hides nothing dirty); after it the blob represents
+   t_rehash of the tree.  A dirty bit that is not propagated (upsert, insert, delete) breaks Inv (twf) and with
+   it these proofs. *)
+Theorem C18_blob_hash_refines_tree : forall H, (forall x, length (H x) = HASH_BYTES) ->
+  forall s ot, Abs H s ot -> step_ok H OHash s ot THash.
+Proof. exact hash_step. Qed.
+
+(* after hashing, the root hash the blob hands out is the independent recursive recomputation over the
+   tree, and no node is dirty *)
+Theorem C18_blob_root_after_hashing : forall H, (forall x, length (H x) = HASH_BYTES) ->
+  forall s t s', Inv_tree H s t -> calculate_lazy_hashes H s = (Ok tt, s') ->
+  get_hash_at_index s' 0 = Ok (Some (merkle H (erase t))) /\
+  abs s' = Some (Some (t_rehash H (erase t))) /\ t_all_clean (t_rehash H (erase t)) = true.
+Proof. exact lazy_hashes_root. Qed.
+
+(* on a blob without dirty nodes get_proof_of_inclusion returns exactly the L1 proof, which
+   C18_proofs_valid shows valid, ending in the root and starting at the map's leaf hash *)
+Theorem C18_blob_proof_is_tree_proof : forall H s t k,
+  Inv_tree H s t -> t_all_clean (erase t) = true -> In k (it_keys t) ->
+  exists p, get_proof_of_inclusion s k = Ok p /\ t_proof k (erase t) = Some p.
+Proof. exact blob_proof_is_tree_proof. Qed.
+
+(* check_integrity (both passes, with the lazy hashing of the clone in between) succeeds under Inv *)
+Theorem C18_blob_check_integrity_ok : forall H, (forall x, length (H x) = HASH_BYTES) ->
+  forall s t, Inv_tree H s t -> check_integrity H s = Ok tt.
+Proof. exact integrity_ok. Qed.
+
+(* MerkleBlob::new on the serialized bytes succeeds and gives an equivalent blob that satisfies Inv for
+   the same tree *)
+Theorem C18_blob_reload_equivalent : forall H s t, Inv_tree H s t ->
+  exists s', reload (bytes_of_blocks (blocks s)) = Ok s' /\ blob_equiv s s' /\ Inv_tree H s' t.
+Proof. exact reload_ok. Qed.
+
+(* FULL STATEMENT:
      forall H ops, (forall x, length (H x) = 32) -> Forall op_in_range ops -> rooms H ops empty_blob ->
        let '(s, m, fine) := run_joint H ops empty_blob [] in
        fine = true /\ Inv H s /\ good_state H s m
    (good_state = content_is /\ check_integrity = Ok tt /\ reload (bytes s) equivalent to s).
-   PROVED below: the statement for ALL histories (induction over the list, no bound) made of insert (any
-   location), delete and upsert, with the clauses: no panic / fuel exhaustion, a failed operation changes
-   nothing (step_ok), Abs/Inv at the end, abs s = the L1 tree, the L1 tree refines the plain map the
-   history produces, get_keys_values = that map.
-   MISSING: accepted batch_insert, calculate_lazy_hashes and reload inside the L2 history, and the clauses
-   check_integrity s = Ok tt and reload (bytes s) ~ s derived from Inv (they need the iterator mirrors
-   lcf / pfi to be related to rep).  For those the link is validated by execution: abs, inv_b, wf_b, reload
-   equivalence and the L1 step are evaluated by the model runner after every operation of every history
-   (flag 'a' in stream dl.hist), and check_integrity / reload verdicts are compared with the implementation. *)
+   PROVED below: exactly this statement (plus Abs, abs s = the L1 tree, the L1 tree refines the plain map)
+   for ALL histories (induction over the list, no bound) of insert (any location), delete, upsert,
+   calculate_lazy_hashes, reload and every batch_insert the plain map rejects at that point.
+   MISSING (the one remaining step): a batch_insert the plain map ACCEPTS inside an L2 history, i.e. the
+   lemma `Abs H s ot -> m_batch items (ot_kv ot) = Some _ -> step_ok H (OBatch items) s ot (TBatch items)`
+   (batch_leaves / batch_levels on a forest of detached subtrees, get_min_height_leaf = t_min_leaf,
+   insert_subtree_at_key).  The hypothesis `rejected_batches` is exactly that exclusion.  The accepted batch
+   is proved at L1 (C18_tree_op_refines_map) and its L2 link is validated by execution (flag 'a'). *)
 Theorem C18_blob_history_refines_map_partial : forall H, (forall x, length (H x) = HASH_BYTES) -> forall ops,
-  Forall (fun o => is_idu o = true) ops -> Forall op_in_range ops -> rooms H ops empty_blob ->
+  Forall op_in_range ops -> rooms H ops empty_blob -> rejected_batches H ops empty_blob [] ->
   let '(s', m', fine) := run_joint H ops empty_blob [] in
-  fine = true /\ exists ot', Abs H s' ot' /\ abs s' = Some ot' /\ tree_refines H ot' m' /\ content_is s' m'.
-Proof. intros H Hlen. exact (blob_history_idu_content H Hlen). Qed.
+  fine = true /\ Inv H s' /\ good_state H s' m' /\
+  exists ot', Abs H s' ot' /\ abs s' = Some ot' /\ tree_refines H ot' m'.
+Proof. intros H Hlen. exact (blob_history_good H Hlen). Qed.
 
 (* ================= non-vacuity ================= *)
-Example C18_invariant_inhabited : exists s t, Inv_tree sha256 s t /\ abs s = Some (Some (erase t)).
+Theorem C18_invariant_inhabited : exists s t, Inv_tree sha256 s t /\ abs s = Some (Some (erase t)).
 Proof. exact inv_inhabited. Qed.
 
 (* ================= the former finding classes (documentation of the pre-fix behaviour) ================= *)
